@@ -752,7 +752,7 @@ def misc_requests(ctx):
 def run(ctx):
     _jax()
     specs = [c["spec"] for c in _corpus()] + FIXED
-    for _ in range(ctx.n(8, 60)):
+    for _ in range(ctx.n(6, 60)):
         specs.append(gen_spec(ctx.rng, ctx.quick))
     check_specs(ctx, specs)
     ctx.extra["exhaustive_per_grid"] = "every index of every level of every generated grid"
